@@ -231,6 +231,9 @@ func rulesC18(c *Ctx) {
 	c.Floor("C18.recognisers", c.CountRule("C18.recognisers"), 2)
 	// the fold that SetTimeRange ends with must not change what a kept predicate means
 	importRules(c, rulesC09, "C09.", "C18.fold-", func(r string) bool { return r == "C09.promote" || r == "C09.opcorr" })
+	// SetTimeRange prints the kept condition and parses it again: the text must survive that
+	fmtConstRule(c, "C18.fmtconst")
+	importRules(c, rulesC06, "C06.", "C18.quoting-", func(r string) bool { return r == "C06.bare" || r == "C06.everychar" })
 
 	// ---- window ----
 	c.Rule("C18.window", "SetTimeRange appends `time >= '<start>' AND time < '<end>'` with start and end in that order, both converted to UTC and formatted with RFC3339Nano (no lost fraction), joins it with AND to the parenthesised stripped condition, re-parses and stores the folded result into the statement's condition")
